@@ -518,7 +518,7 @@ pub fn misc(r: &mut Rng, n: usize, out: &mut Vec<String>) {
             2 => out.push(format!("sl {}", level(r))),
             3 => out.push(format!("tp {}", any_f32_bits(r))),
             4 => out.push(format!("sl {}", any_f32_bits(r))),
-            _ => out.push(format!("notenew {}", r.below(256))),
+            _ => out.push(format!("{} {}", r.pick(&["notenew", "notefrom"]), r.below(256))),
         }
     }
     for sr in [100u64, 999, 1000, 4000, 10000, 22050, 44100, 48000, 96000, 192000, 250000] {
@@ -1037,6 +1037,7 @@ pub fn midi_cc_all(ch: u64, out: &mut Vec<String>) {
 pub fn misc_all(out: &mut Vec<String>) {
     for n in 0..256 {
         out.push(format!("notenew {}", n));
+        out.push(format!("notefrom {}", n));
     }
     for c in 0..256 {
         out.push(format!("midi new {}", c));
@@ -1818,7 +1819,34 @@ pub fn ribbon_fine(r: &mut Rng, n: usize, out: &mut Vec<String>) {
         let ignore = (sr as usize) / 1000;
         let need = cap + ignore;
         let lvl = (r.unit() as f32) * boundary * 0.9;
-        match r.below(5) {
+        match r.below(6) {
+            5 => {
+                // a consumer that reads the edge flags far more slowly than the samples arrive: whole press / release /
+                // press cycles without a single flag read, then one flag read at a chosen moment
+                let first = r.pick(&["jr", "jp"]);
+                for round in 0..r.range(2, 4) {
+                    for _ in 0..need + r.range(1, 4) as usize {
+                        out.push(format!("poll {}", b(lvl)));
+                    }
+                    if round == 0 && r.chance(1, 2) {
+                        out.push(if first == "jr" { "jp" } else { "jr" }.into());
+                    }
+                    for _ in 0..r.range(1, 40) {
+                        out.push(format!("poll {}", b(1.0)));
+                    }
+                }
+                for _ in 0..need + 2 {
+                    out.push(format!("poll {}", b(lvl)));
+                }
+                // read while the second (or third) press is held
+                out.push(first.into());
+                out.push(if first == "jr" { "jp" } else { "jr" }.into());
+                out.push(format!("poll {}", b(1.0)));
+                out.push("jr".into());
+                out.push("jp".into());
+                out.push("jr".into());
+                left -= 5 * need as i64;
+            }
             0 => {
                 // a press, then samples exactly on the boundary (lifted), then more in-range samples
                 for _ in 0..need + 2 {
@@ -1904,12 +1932,214 @@ pub fn ribbon_fine(r: &mut Rng, n: usize, out: &mut Vec<String>) {
     }
 }
 
+// ------------------------------------------------------------------------------------------------
+// long histories of one object: counters of 8, 10, 12 or 16 bits that wrap or saturate, run-length detectors, state that
+// only goes wrong after tens of thousands of calls.  Each scenario is emitted once per stream (n is ignored).
+
+fn push_bytes(out: &mut Vec<String>, bytes: &[u64]) {
+    for by in bytes {
+        out.push(format!("byte {}", by));
+    }
+}
+
+pub fn midi_long(r: &mut Rng, _n: usize, out: &mut Vec<String>) {
+    let bend_probes = |r: &mut Rng, c: u64, out: &mut Vec<String>| {
+        for (l, m) in [(0u64, 0u64), (0, 32), (0, 64), (0, 65), (0, 96), (1, 96), (0, 127), (127, 127), (0, 100), (64, 80)] {
+            push_bytes(out, &[0xE0 + c, l, m]);
+        }
+        for _ in 0..6 {
+            let m = r.below(128);
+            push_bytes(out, &[0xE0 + c, if r.chance(1, 2) { 0 } else { r.below(128) }, m]);
+        }
+    };
+    let head = |r: &mut Rng, out: &mut Vec<String>| -> u64 {
+        let ch = r.pick(&[0u64, 3, 9, 15]);
+        out.push(format!("midi new {}", ch));
+        out.push(format!("retrig {}", r.below(2)));
+        out.push(format!("prio {}", r.below(3)));
+        ch
+    };
+    // 1. more than 2^16 note-on messages to one receiver (running status), some of them released again
+    {
+        let c = head(r, out);
+        let pool = [60u64, 62, 64, 65, 67, 1, 127, 0];
+        push_bytes(out, &[0x90 + c]);
+        for k in 0..66_100u64 {
+            let note = pool[(k % 5) as usize];
+            push_bytes(out, &[note, 1 + k % 127]);
+            if k % 3 == 2 {
+                push_bytes(out, &[pool[((k + 3) % 5) as usize], 0]);
+            }
+            if k % 8191 == 0 {
+                out.push("rising".into());
+                out.push("falling".into());
+            }
+        }
+        for note in pool {
+            push_bytes(out, &[note, 0]);
+        }
+        push_bytes(out, &[r.pick(&pool), 100]);
+    }
+    // 2. every controller number written with the same value (any preamble of two or three controller messages with equal
+    //    values is a sub-sequence), then the documented maps probed; data-entry style preambles with mixed values
+    for v in [0u64, 2, 12, 127] {
+        let c = head(r, out);
+        for cc in (0..128u64).rev() {
+            push_bytes(out, &[0xB0 + c, cc, v]);
+        }
+        bend_probes(r, c, out);
+        for cc in [1u64, 7, 74, 71, 5, 64, 65] {
+            push_bytes(out, &[0xB0 + c, cc, 100]);
+        }
+        push_bytes(out, &[0x90 + c, 60, 100, 0x80 + c, 60, 0]);
+    }
+    for _ in 0..8 {
+        let c = head(r, out);
+        for _ in 0..r.range(2, 5) {
+            let cc = r.pick(&[101u64, 100, 99, 98, 6, 38, 96, 97, 0, 32, 120, 122, 124, 126, 127]);
+            push_bytes(out, &[0xB0 + c, cc, r.pick(&[0u64, 0, 1, 2, 12, 24, 127])]);
+        }
+        bend_probes(r, c, out);
+    }
+    // 3. long runs of pitch-bend messages without a fine byte (a 7-bit wheel), then the map probed
+    for run in [300u64, 1_100, 4_200, 66_000] {
+        let c = head(r, out);
+        push_bytes(out, &[0xE0 + c]);
+        for k in 0..run {
+            push_bytes(out, &[0, (k * 7) % 128]);
+        }
+        bend_probes(r, c, out);
+    }
+    // 4. long runs of one controller message and of an ignored one
+    for (run, cc) in [(1_100u64, 1u64), (66_000, 7), (4_200, 3)] {
+        let c = head(r, out);
+        push_bytes(out, &[0xB0 + c]);
+        for k in 0..run {
+            push_bytes(out, &[cc, k % 128]);
+        }
+        push_bytes(out, &[0xB0 + c, 1, 64, 0xB0 + c, 7, 127, 0xB0 + c, 121, 0]);
+        bend_probes(r, c, out);
+        push_bytes(out, &[0x90 + c, 61, 100]);
+    }
+}
+
+fn pc_of(v: f32) -> u64 {
+    ((v * 12.0).floor().max(0.0) as u64) % 12
+}
+
+pub fn quant_long(r: &mut Rng, _n: usize, out: &mut Vec<String>) {
+    let volts = |r: &mut Rng| -> f32 { (r.below(120) as f32 + (20.0 + r.below(60) as f32) / 100.0) / 12.0 };
+    // 1. exactly k scale edits between two conversions of one input, the last of them forbidding the held class
+    for k in [256u64, 65_536] {
+        out.push("quant new".to_string());
+        let v = volts(r).max(0.0);
+        let pc = pc_of(v);
+        let x = (pc + 1 + r.below(10)) % 12;
+        out.push(format!("convert {}", b(v)));
+        for i in 0..k - 1 {
+            out.push(format!("{} {}", if i % 2 == 0 { "forbid" } else { "allow" }, x));
+        }
+        out.push(format!("forbid {}", pc));
+        out.push(format!("convert {}", b(v)));
+        out.push(format!("allow {}", pc));
+        out.push(format!("convert {}", b(v)));
+    }
+    // 2. a quantizer that has seen more than 2^16 forbid calls (and as many allow calls)
+    for calls in [300u64, 66_000] {
+        out.push("quant new".to_string());
+        for i in 0..calls {
+            out.push(format!("forbid {}", [1u64, 3, 6][(i % 3) as usize]));
+            if i % 2 == 1 {
+                out.push(format!("allow {}", [1u64, 3, 6][(i % 3) as usize]));
+            }
+        }
+        for _ in 0..6 {
+            let v = volts(r).max(0.0);
+            out.push(format!("allow {}", (0..12).map(|x| x.to_string()).collect::<Vec<_>>().join(" ")));
+            out.push(format!("convert {}", b(v)));
+            out.push(format!("forbid {}", pc_of(v)));
+            out.push(format!("convert {}", b(v)));
+            out.push(format!("convert {}", b(v + 0.01)));
+        }
+    }
+    // 3. emptying the scale with the held class last in the list, a neighbour allowed again, then an input in the
+    //    hysteresis margin on the neighbour's side (no conversion in between)
+    for _ in 0..40 {
+        out.push("quant new".to_string());
+        let note = r.range(1, 118);
+        let v = (note as f32 + (10.0 + r.below(80) as f32) / 100.0) / 12.0;
+        out.push(format!("convert {}", b(v)));
+        let pc = note % 12;
+        let mut all: Vec<u64> = (0..12).filter(|x| *x != pc).collect();
+        if r.chance(1, 2) {
+            all.reverse();
+        }
+        if r.chance(3, 4) {
+            all.push(pc);
+        } else {
+            all.insert(r.below(11) as usize, pc);
+        }
+        out.push(format!("forbid {}", all.iter().map(|x| x.to_string()).collect::<Vec<_>>().join(" ")));
+        let up = r.chance(1, 2);
+        out.push(format!("allow {}", if up { (pc + 1) % 12 } else { (pc + 11) % 12 }));
+        if r.chance(1, 4) {
+            out.push(format!("allow {}", pc));
+        }
+        let off = r.pick(&[0.02f32, 0.05, 0.09, 0.095, 0.11]);
+        let w = if up { (note as f32 + 1.0 + off) / 12.0 } else { (note as f32 - off) / 12.0 };
+        out.push(format!("convert {}", b(w)));
+        out.push(format!("convert {}", b(w)));
+        out.push(format!("convert {}", b(v)));
+    }
+}
+
+fn next_up(x: f32) -> f32 {
+    f32::from_bits(x.to_bits() + 1)
+}
+
+pub fn lfo_long(r: &mut Rng, _n: usize, out: &mut Vec<String>) {
+    // thousands of consecutive set_frequency calls whose values differ by one ulp, or by the shrinking steps of a
+    // one-pole smoother, with a tick now and then (the realised step must follow the configured frequency)
+    for (sr, f0) in [(1000.0f32, 0.5f32), (1000.0, 1.0), (48000.0, 1.9), (1000.0, 0.03), (500.0, 0.249), (192000.0, 1.0)] {
+        out.push(format!("lfo new {}", b(sr)));
+        let mut f = f0;
+        out.push(format!("freq {}", b(f)));
+        out.push("tick".into());
+        let steps = 4_000 + r.below(500);
+        for k in 0..steps {
+            f = next_up(f);
+            out.push(format!("freq {}", b(f)));
+            if k % 16 == 15 || k + 1 == steps {
+                out.push("tick".into());
+            }
+        }
+        out.push("tick".into());
+    }
+    for (sr, from, to) in [(1000.0f32, 0.2f32, 1.5f32), (48000.0, 1.5, 0.1), (1000.0, 0.0, 0.7)] {
+        out.push(format!("lfo new {}", b(sr)));
+        let mut f = from;
+        let a = r.pick(&[0.01f32, 0.003, 0.05]);
+        for k in 0..5_000u64 {
+            f += (to - f) * a;
+            out.push(format!("freq {}", b(f)));
+            if k % 8 == 7 {
+                out.push("tick".into());
+            }
+        }
+        out.push("tick".into());
+        out.push("tick".into());
+    }
+}
+
 pub fn stream(name: &str, seed: u64, n: usize) -> Vec<String> {
     let mut r = Rng::new(seed.wrapping_mul(0x100_0000_01B3) ^ name.bytes().fold(0u64, |a, c| a.wrapping_mul(131) + c as u64));
     let mut out = Vec::with_capacity(n + 16);
     match name {
         "adsr" => adsr(&mut r, n, &mut out),
         "lfo_fine" => lfo_fine(&mut r, n, &mut out),
+        "midi_long" => midi_long(&mut r, n, &mut out),
+        "quant_long" => quant_long(&mut r, n, &mut out),
+        "lfo_long" => lfo_long(&mut r, n, &mut out),
         "adsr_fine" => adsr_fine(&mut r, n, &mut out),
         "midi_fine" => midi_fine(&mut r, n, &mut out),
         "quant_fine" => quant_fine(&mut r, n, &mut out),
